@@ -132,6 +132,36 @@ pub fn run_random(seed: u64, count: usize, max_instances: usize, mode: &str, out
     }
 }
 
+/// C16 closure through the XML codec: every serializable, non-migrating descriptor (canonical and alias spellings)
+/// once, as a one-property instance with a value of the declared type, default options; several per case.
+pub fn run_descriptors(seed: u64, per_case: usize, out: &mut dyn Write) {
+    std::panic::set_hook(Box::new(|_| {}));
+    let db = rbx_reflection_database::get();
+    let known = gen::known_props(db);
+    let types = xml_types();
+    let mut rng = StdRng::seed_from_u64(seed);
+    for (ci, chunk) in known.chunks(per_case).enumerate() {
+        let mut dom = WeakDom::new(rbx_dom_weak::InstanceBuilder::new("DataModel"));
+        let root = dom.root_ref();
+        let mut roots = Vec::new();
+        for k in chunk {
+            if k.name == "UniqueId" || k.name == "Name" || !types.contains(&k.ty) {
+                continue;
+            }
+            if let Some(v) = gen::value_of(k.ty, &mut rng, &roots, true) {
+                if matches!(&v, rbx_dom_weak::types::Variant::Content(c) if matches!(c.value(), rbx_dom_weak::types::ContentType::Object(_))) {
+                    continue; // recorded C02 finding: the XML writer cannot write object references yet
+                }
+                let b = rbx_dom_weak::InstanceBuilder::new(k.class.as_str()).with_name("D").with_property(k.name.as_str(), v);
+                roots.push(dom.insert(root, b));
+            }
+        }
+        let ev = xml_event(&format!("xdesc:{}:{}", seed, ci), &dom, &roots, "IgnoreUnknown", "IgnoreUnknown");
+        serde_json::to_writer(&mut *out, &ev).unwrap();
+        out.write_all(b"\n").unwrap();
+    }
+}
+
 /// Foreign documents (tools/foreign_xml.py): read each with rbx_xml's default options.
 pub fn run_foreign(input: &mut dyn std::io::BufRead, out: &mut dyn Write) {
     std::panic::set_hook(Box::new(|_| {}));
